@@ -177,6 +177,10 @@ inductive Sel where
   | count
   | sum (f : String)
   | avg (f : String)
+  /-- `_sum` / `_avg` over two sources: field `f` of the selected documents and field `g` (`v`: Int, `w`: Float) of the
+      second collection -/
+  | sum2 (f g : String)
+  | avg2 (f g : String)
   | min (f : String)
   | max (f : String)
   deriving Repr
@@ -205,8 +209,25 @@ inductive AggRes where
 
 def isFloatField (f : String) : Bool := f == "score"
 
+/-- the values (in eighths) of the second source: its Int field `v` (absent values skipped) or its Float field `w` -/
+def auxVals (aux : List (Option Int × Int)) (g : String) : List Int :=
+  if g == "w" then aux.map (·.2) else aux.filterMap (fun a => a.1.map (· * 8))
+
+/-- an aggregate over two sources: the arithmetic over all values; a float as soon as one source is a float -/
+def aggregate2 (sel : Sel) (l : List Doc) (aux : List (Option Int × Int)) : Option AggRes :=
+  match sel with
+  | .sum2 f g =>
+    let s := ((l.filterMap (fun d => (d.get f).num8)) ++ auxVals aux g).foldl (· + ·) 0
+    some (if isFloatField f || g == "w" then .num8 s else .int (s / 8))
+  | .avg2 f g =>
+    let vs := (l.filterMap (fun d => (d.get f).num8)) ++ auxVals aux g
+    some (if vs.isEmpty then .ratio 0 1 else .ratio (vs.foldl (· + ·) 0) vs.length)
+  | _ => none
+
 def aggregate (sel : Sel) (l : List Doc) : AggRes :=
   match sel with
+  | .sum2 _ _ => .null
+  | .avg2 _ _ => .null
   | .docs => .docs (l.map (·.id))
   | .count => .int l.length
   | .sum f =>
